@@ -131,10 +131,18 @@ class _OrbitCorrectionService(_DynamicsServiceBase):
         if options is None:
             options = self.correction_options
         
-        # Cache key based on options
-        cache_key = self.make_key("correct", tuple(sorted(options.to_dict().items())))
+        # Cache key based on options AND on the state the correction starts from
+        dynamics = self.domain_obj.dynamics
+        cache_key = self.make_key(
+            "correct",
+            tuple(sorted(options.to_dict().items())),
+            tuple(np.asarray(dynamics.initial_state, dtype=float).tolist()),
+            dynamics.period,
+        )
+        computed = []
 
         def _factory() -> tuple[np.ndarray, float, OrbitCorrectionDomainPayload, "CorrectionResult"]:
+            computed.append(True)
             result = self.corrector.correct(self.domain_obj, options=options)
             payload = OrbitCorrectionDomainPayload._from_mapping(
                 {
@@ -148,6 +156,10 @@ class _OrbitCorrectionService(_DynamicsServiceBase):
             return result.x_corrected, 2 * result.half_period, payload, result
 
         state, period, payload, result = self.get_or_create(cache_key, _factory)
+        if not computed:
+            # Served from the cache: leave the orbit in the corrected state, as a
+            # fresh correction from the same starting state would
+            self.apply_correction(payload)
         return state, period, result
 
     def apply_correction(self, update: OrbitCorrectionDomainPayload) -> OrbitCorrectionDomainPayload:
